@@ -117,6 +117,17 @@ def gen_cases(tier, seed):
                     cases.append({'min_part': 8, 'executor': 'nonthreaded', 'seed': rng.randrange(1 << 30), 'family': 'nonthreaded',
                                   'config': dict(multipart_threshold=16, multipart_chunksize=8), 'transfers': [dict(t)],
                                   'plan': {'faults': [{'at': site, 'phase': ph, 'kind': kind, 'tag': 'FAULT-nt'}]}})
+    # threaded: a part's request thread is hit by a BaseException that is not an Exception (SystemExit from an on_progress subscriber,
+    # a framework class) while the parts after it are held in flight: the abort still waits for every one of them
+    for src in ('path', 'seekable', 'copy'):
+        t = {'kind': 'copy', 'size': 28} if src == 'copy' else {'kind': 'upload', 'src': src, 'size': 28}
+        op = 'UploadPartCopy' if src == 'copy' else 'UploadPart'
+        for pn in (1, 2, 3):
+            for rep in range(1 if quick else 3):
+                cases.append({'min_part': 8, 'seed': rng.randrange(1 << 30), 'family': 'base-in-part-others-in-flight',
+                              'config': dict(multipart_threshold=16, multipart_chunksize=8, max_request_concurrency=4, max_in_memory_upload_chunks=4), 'transfers': [dict(t)],
+                              'plan': {'faults': [{'at': f't0/s3:{op}:{pn}#0', 'phase': 'before', 'kind': rng.choice(['base', 'systemexit']), 'tag': 'FAULT-bp'}],
+                                       'gate': {'match': f't0/s3:{op}', 'phase': 'after', 'policy': rng.choice(['seeded', 'reverse'])}}})
     # two steps: the transfer is cancelled (or a part fails) while requests are held in flight, and THEN the submission itself fails
     # (the stream being read on the submission thread raises - e.g. it was closed after the cancel): the abort still has to wait
     # for everything in flight, and an upload whose create request is still out must not be forgotten
